@@ -37,7 +37,7 @@ RULE = ("Configuration = sampler {mh, mhcustom with a deterministic contraction,
         "nburnout 0-6 x step size x dim 1-3 x f output {scalar, vector, tuple, constant, its own argument, a view of it, a stored tensor} x backward-only sampler options x parameters of f and of log p "
         "{explicit tensors, held by one of 12 EditableModule / nn.Module kinds, f and log p on the same object or on two} "
         "x some tensors not requiring grad x an extra tensor entering neither function x usage {forward, backward, "
-        "graph-recording backward + second backward, linearity triple, peer failing at its k-th entry then retry, three successive plain backward passes}; in-place or pure custom step; non-float tuple component; one torch RNG seed per run. The history of "
+        "graph-recording backward + second backward, linearity triple, peer failing at its k-th entry then retry, three successive plain backward passes}; in-place or pure custom step; non-float tuple component; explicit parameters computed from one another; only the start point requiring grad; backward pass under a caller-opened substitution; one torch RNG seed per run. The history of "
         "points at which f, log p and the custom step are entered, and of RNG draws, is recorded and judged against the "
         "chain model. A case is non-trivial iff the sampler entered log p or the custom step at >=2 distinct points and "
         "a gradient was judged or nburnout>0; distinct = distinct (sampler, nsamples, nburnout, dim, f kind, parameter "
@@ -75,6 +75,12 @@ def draw_scenario(cs, cfg):
     sc["fkind"] = ["scalar", "vector", "tuple", "const", "identity", "view", "param", "tuple_bool"][
         cs.weighted([4, 3, 3, 1, 1, 1, 1, 1], "fkind")]
     sc["step_inplace"] = cs.bool("step_inplace", 1, 3)
+    # explicit parameters computed from one another (b = b0 * (1 + 0.1 a)): each slot must get its own partial
+    sc["dependent_params"] = cs.bool("dependent_params", 1, 3)
+    # only x0 requires grad: a tensor that enters neither function's parameters
+    sc["only_x0_grad"] = cs.bool("only_x0_grad", 1, 12)
+    # the backward pass runs while the objects hold other tensors than during the forward pass
+    sc["bwd_under_subst"] = cs.bool("bwd_under_subst", 1, 4)
     # where the parameters live
     sc["fhold"] = ["object", "explicit"][cs.weighted([3, 2], "fhold")]
     sc["phold"] = ["object", "explicit", "same_object"][cs.weighted([2, 2, 2], "phold")]
@@ -83,6 +89,7 @@ def draw_scenario(cs, cfg):
     sc["kind"] = cs.draw(len(AC.ALL_KINDS), "kind")
     sc["kind2"] = cs.draw(len(AC.ALL_KINDS), "kind2")
     sc["rgW"] = not cs.bool("W_nograd", 1, 6)
+    sc["_placeholder"] = 0
     sc["rgb"] = not cs.bool("b_nograd", 1, 6)
     sc["a_grad"] = not cs.bool("a_nograd", 1, 5)
     sc["c_grad"] = not cs.bool("c_nograd", 1, 5)
@@ -101,6 +108,9 @@ class Env(object):
 
 
 def build_env(sc):
+    if sc.get("only_x0_grad"):
+        sc = dict(sc, rgW=False, rgb=False, a_grad=False, c_grad=False,
+                  zkind="float" if sc["zkind"] != "float" else "float", dependent_params=False)
     env = Env()
     n = max(sc["d"], 1)
     vals = AC.make_values(sc["valseed"], max(n, 2))
@@ -109,6 +119,8 @@ def build_env(sc):
     g = torch.Generator()
     g.manual_seed(31 + sc["valseed"])
     env.x0 = 0.5 * torch.randn(sc["d"], generator=g, dtype=DT)
+    if sc.get("only_x0_grad"):
+        env.x0.requires_grad_()
     env.a = torch.tensor(0.9, dtype=DT).requires_grad_(sc["a_grad"])
     env.c = torch.tensor(0.6, dtype=DT).requires_grad_(sc["c_grad"])
     if sc["zkind"] == "float":
@@ -127,6 +139,10 @@ def build_env(sc):
     else:
         W = vals["W"].clone().requires_grad_(sc["rgW"])
         b = vals["b"].clone().requires_grad_(sc["rgb"])
+        env.extra_leaves = []
+        if sc.get("dependent_params") and sc["a_grad"]:
+            env.extra_leaves.append(b)
+            b = b * (1.0 + 0.1 * env.a)         # a slot computed from another slot
 
         def fplain(x, a, z, fkind, W, b):
             SIM.enter("f_mc16", (None, x))
@@ -153,6 +169,9 @@ def build_env(sc):
     else:
         W2 = vals["W2"].clone().requires_grad_(sc["rgW"])
         b2 = vals["b2"].clone().requires_grad_(sc["rgb"])
+        if sc.get("dependent_params") and sc["c_grad"]:
+            env.extra_leaves = getattr(env, "extra_leaves", []) + [b2]
+            b2 = b2 * (1.0 + 0.1 * env.c)
 
         def pplain(x, c, z, W2, b2):
             SIM.enter("logp16", (None, x))
@@ -187,7 +206,7 @@ def leaves_of(env):
         if isinstance(t, torch.Tensor) and t.requires_grad and t.dtype.is_floating_point and id(t) not in seen:
             seen.add(id(t))
             out.append(t)
-    for t in [env.a, env.c, env.z] + env.f_explicit + env.p_explicit:
+    for t in [env.a, env.c, env.z] + env.f_explicit + env.p_explicit + getattr(env, "extra_leaves", []):
         add(t)
     for A in env.actors:
         for sl in Snapshot(A, light=True).slots:
@@ -271,7 +290,8 @@ def call_mcquad(env, sc, fkind, ffcn=None):
         opts["bck_options"] = {"step_size": 0.31}
     torch.manual_seed(sc["rng"])
     # a fresh copy of the start point per call: a caller-supplied in-place step advances the tensor it is given
-    return mcquad(ffcn or env.ffcn, env.pfcn, env.x0.clone(), fparams=fargs(env, fkind), pparams=pargs(env), **opts)
+    x0 = env.x0 * 1.0 if env.x0.requires_grad else env.x0.clone()
+    return mcquad(ffcn or env.ffcn, env.pfcn, x0, fparams=fargs(env, fkind), pparams=pargs(env), **opts)
 
 
 def run(cs, cfg):
@@ -294,6 +314,8 @@ def run(cs, cfg):
                                                       sc["usage"], sc["rng"])})
 
     env = build_env(sc)
+    if sc.get("only_x0_grad"):
+        sc = dict(sc, zkind="float")
     snaps = [Snapshot(A, "obj%d" % i) for i, A in enumerate(env.actors)]
     decoded = {"scenario": sc}
     n, nb = sc["nsamples"], sc["nburnout"]
@@ -327,7 +349,7 @@ def run(cs, cfg):
     Wp, bp = env.pWb()
 
     def lp(x):
-        return AC.logp16_ref(Wp.detach(), bp.detach(), x, env.c.detach())
+        return AC.logp16_ref(Wp.detach(), bp.detach(), x.detach(), env.c.detach())
 
     # ---- sampler-specific chain model
     weights0 = torch.full((n,), 1.0 / n, dtype=DT)
@@ -394,6 +416,16 @@ def run(cs, cfg):
     nrand_fwd = len(rec.randn) + len(rec.rand)
     # ---- usage
     leaves = leaves_of(env)
+    if sc.get("only_x0_grad") and rf.requires_grad:
+        # nothing but the start point requires grad: asking for its gradient must not raise
+        cnt("reach.only_x0_requires_grad")
+        try:
+            with warnings.catch_warnings():
+                warnings.simplefilter("ignore")
+                torch.autograd.grad(rf.sum(), [env.x0], allow_unused=True, retain_graph=True)
+        except Exception as e:
+            V("backward_raises", "backward w.r.t. the start point (the only tensor requiring grad) raised %s: %s" %
+              (type(e).__name__, str(e)[:200]), unused_z="x0")
     if sc["usage"] == "linearity":
         # f1, f2 and 2 f1 - 3 f2 on the same samples (same seed): linear in f
         with warnings.catch_warnings():
@@ -477,9 +509,20 @@ def run(cs, cfg):
         cg = sc["usage"] == "bwd2"
         rec.phase = "bwd"
         gx = None
+        import contextlib as _cl
+        stack = _cl.ExitStack()
+        if sc.get("bwd_under_subst") and env.actors and not cg:
+            # the objects hold other tensors now than during the forward pass (a caller-opened substitution,
+            # as every enclosing functional's backward pass does): the gradient must still be the one at the
+            # forward tensors
+            from xitorch._core.pure_function import get_pure_function
+            for A in env.actors:
+                pfA = get_pure_function(A.logp16)
+                stack.enter_context(pfA.useobjparams([(p.detach() * 1.7 + 0.3).requires_grad_() for p in pfA.objparams()]))
+            cnt("reach.backward_under_other_substitution")
         with warnings.catch_warnings():
             warnings.simplefilter("ignore")
-            with rec:
+            with rec, stack:
                 try:
                     if rf.requires_grad:
                         gx = torch.autograd.grad((rf * w).sum(), leaves, allow_unused=True, create_graph=cg,
